@@ -18,7 +18,7 @@ META = {
         "quick": {"evaluations": 15000, "distinct_nontrivial": 4000, "tables": {"programs": 600, "symmetry/Z4": 200, "kind/fermionic": 5000, "kind/generic": 2000, "feature/fuse-group-of-4-or-more-axes": 1500}},
         "thorough": {"evaluations": 600000, "distinct_nontrivial": 100000, "tables": {"programs": 20000}},
     },
-    "wall": {"quick": 300, "thorough": 1700},
+    "wall": {"quick": 900, "thorough": 1700},
     "debug_shards": {"thorough": 2},
 }
 
@@ -237,9 +237,10 @@ def utils_case(ctx, rng):
 
 
 def run(ctx):
-    for _, rng in ctx.cases("programs", ctx.budget(36000, 700000)):
-        ctx.run_case(run_program, ctx, rng)
+    # small streams first: the large one may run into the wall-clock cap of the thorough tier
     for _, rng in ctx.cases("many-legs", ctx.budget(2500, 50000)):
         ctx.run_case(many_legs_case, ctx, rng)
     for _, rng in ctx.cases("utils", ctx.budget(15000, 300000)):
         ctx.run_case(utils_case, ctx, rng)
+    for _, rng in ctx.cases("programs", ctx.budget(36000, 700000)):
+        ctx.run_case(run_program, ctx, rng)
